@@ -1,10 +1,16 @@
 import HapVerif.Model.C17
+import HapVerif.Model.C17Sec
 import HapVerif.Drv.Common
 /-!
 Line protocol of C17 (all lists `,`-separated, `-` = empty):
 
 * `verify <acct> <miss|crt:<notAfter>:<sans>> <now> <window> <declared> <crt key err> <setErr>`
   `=> got=<b> sign=<domains|-> write=<b> err=<b> metric=<M|E|O|->:<b>`   (empty name = `_`)
+* `vsec <acct> <none|<type>/<crt>/<key>/<ca>/<extra>> <now> <window> <declared> <crt key err> <setErr>`: the same
+  signer over the real cache facade; type `tls|opaque|empty|other`, crt `absent|empty|text|keyblk|badder|trail|
+  c:<notAfter>:<sans>|chain:<notAfter>:<sans>`, key `absent|empty|text|certblk|other|stray|ok|okp|pk8`, ca `-|bad|self`
+  `=> use=<b> got=.. sign=.. write=.. err=.. metric=.. after=<none|old|new>` (`use`: the controller's own
+  `GetTLSSecretPath` accepted the secret; `after`: the Secret object after `Notify`) or `PANIC ...`
 * `st <op;op;...>` with `F` | `D:<names>` | `Q:<name>:<chain>:<doms>` | `U:<leader><acct>` | `C`
 * `cyc <cycle;cycle;...>` with `<p|f><leader><acct>/<dirty>/<name:chain:doms+...>`
 * `conv <cycle|cycle|...>` with `<p|f><leader><acct>@<ing&ing...>`,
@@ -70,6 +76,59 @@ def parseVOut (s : String) : Option VOut :=
       | _ => none
     pure { got := ← parseBool g, signed := if sg = "-" then none else some (parseNames sg),
            written := ← parseBool w, err := ← parseBool e, metric := metric }
+  | _ => none
+
+/-! the Secret behind the decision (`vsec`) -/
+
+def parseSType (s : String) : Option SType :=
+  if s = "tls" then some .tls else if s = "opaque" then some .opaque else if s = "empty" then some .empty
+  else if s = "other" then some .other else none
+
+def parseCrtSt (s : String) : Option CrtSt :=
+  if s = "absent" then some .absent else if s = "empty" then some .empty
+  else if s = "text" ∨ s = "keyblk" ∨ s = "badder" ∨ s = "trail" then some .bad else
+  match s.splitOn ":" with
+  | [k, na, sans] => if k = "c" ∨ k = "chain" then na.toInt?.map (fun na => .cert na (parseNames sans)) else none
+  | _ => none
+
+def parseKeySt (s : String) : Option KeySt :=
+  if s = "absent" then some .absent else if s = "empty" then some .empty
+  else if s = "text" ∨ s = "certblk" then some .bad else if s = "other" then some .other
+  else if s = "stray" then some .stray
+  else if s = "ok" ∨ s = "okp" ∨ s = "pk8" then some .ok else none
+
+def parseCaSt (s : String) : Option CaSt :=
+  if s = "-" then some .absent else if s = "bad" then some .bad else if s = "self" then some .self else none
+
+/-- `none` = parse error, `some none` = no such Secret -/
+def parseSec (s : String) : Option (Option Sec) :=
+  if s = "none" then some none else
+  match s.splitOn "/" with
+  | [t, c, k, ca, x] => do
+    pure (some { type := ← parseSType t, crt := ← parseCrtSt c, key := ← parseKeySt k, ca := ← parseCaSt ca,
+                 extra := ← parseBool x })
+  | _ => none
+
+def showAfter : After → String
+  | .none => "none"
+  | .old => "old"
+  | .new => "new"
+
+def parseAfter (s : String) : Option After :=
+  if s = "none" then some .none else if s = "old" then some .old else if s = "new" then some .new else none
+
+def showSOut : Option SOut → String
+  | none => "PANIC"
+  | some o => "use=" ++ showB o.usable ++ " " ++ showVOut o.out ++ " after=" ++ showAfter o.after
+
+/-- `none` = unreadable line, `some none` = the implementation panicked -/
+def parseSOut (s : String) : Option (Option SOut) :=
+  if s.startsWith "PANIC" then some none else
+  match words s with
+  | [u, g, sg, w, e, m, a] => do
+    let u ← field u "use"; let a ← field a "after"
+    let o ← parseVOut (" ".intercalate [g, sg, w, e, m])
+    pure (some { usable := ← parseBool u, out := o, after := ← parseAfter a })
   | _ => none
 
 /-! storages -/
@@ -239,6 +298,18 @@ def handle (args : List String) (impl : String) : Verdict :=
           oracle := if i.declared.isEmpty then none else oracleVerify i o, trivial := i.declared.isEmpty }
       | none => { model := showVOut m, agree := false, oracle := some "panic-verify" }
     | _, _, _, _, _, _ => bad "parse-verify"
+  | ["vsec", acct, sec, now, win, decl, sign, setErr] =>
+    match parseBool acct, parseSec sec, now.toInt?, win.toInt?, parseSign sign, parseBool setErr with
+    | some acct, some sec, some now, some win, some sign, some setErr =>
+      let i : SIn := { acct := acct, sec := sec, now := now, window := win, declared := parseNames decl,
+                       sign := sign, setErr := setErr }
+      let m := notifySec i
+      match parseSOut impl with
+      | some o =>
+        { model := showSOut m, agree := m = o,
+          oracle := if i.declared.isEmpty then none else oracleSec i o, trivial := i.declared.isEmpty }
+      | none => { model := showSOut m, agree := false, oracle := some "panic-verify" }
+    | _, _, _, _, _, _ => bad "parse-vsec"
   | ["st", ops] =>
     match parseList parseOp ops ";" with
     | some ops =>
